@@ -12,10 +12,15 @@ T2 correspondences (the real function and the model evaluated by vm_compute on t
              mixin classes with other in-feature bounds (name first, options fallback, "&", "~")
   match    : match_feature_group_criteria and the operation extraction of the two built-in groups
   json     : load_features_from_config on valid documents and on mutations that violate the published schema
+  pair     : input_features (planning) and _extract_source_features (calculation) of the same (group, name, options):
+             both equal the model pair (plan_sources, calc_sources) and the calculation reads what was planned
   columns  : get_column_base_feature, resolve_multi_column_feature and the default matcher of a root group on "~" names
 End to end (mloda.run_all, Pandas and PyArrow, trace through an Extender hook):
   e2e      : a chain written as a name, as nested options and as a JSON document: values, value oracle, group trace
   e2e_bad  : malformed names and schema-invalid documents must be rejected; the verdict is compared with the model
+  sources  : every notation of the LAST link of a chain of length 1-4 (name, name + in_features = predecessor / root /
+             ancestor / another column via Options and via JSON, options only, JSON): identical values, the input the planner
+             resolved (Extender hook) and the column read (identified from the value) against the model
   subcol   : chains over a sub-column source (m~1) in the three notations
   unprot   : nested option / JSON descriptions without feature_chainer_parser_key protection (equal or rejected)
 """
@@ -37,7 +42,7 @@ from lib.vlib import cq_list, cq_str, cq_nat, cq_bool
 
 LEVEL = "proof"
 logging.disable(logging.CRITICAL)
-REQ = ["MV.Model.ChainParser", "MV.Spec.ChainName", "MV.Model.ConfigLoader", "MV.Spec.ConfigSchema"]
+REQ = ["MV.Model.ChainParser", "MV.Spec.ChainName", "MV.Model.ConfigLoader", "MV.Spec.ConfigSchema", "MV.Model.ChainSources"]
 
 KF_UNHASHABLE = "C16-unhashable-in-features-spelling"
 KF_NESTED = "C16-nested-options-need-protected-keys"
@@ -145,6 +150,22 @@ Definition chk_columns (c : (str * list str) * (str * list str * bool)) :=
 Definition chk_triple (c : (pv * pv * json) * list (nat * pv)) :=
   match c with ((n, o, j), t) =>
     opt_trace_eqb (predict n) (Some t) && opt_trace_eqb (predict o) (Some t) && opt_trace_eqb (predict_json j) (Some t) end.
+(* the pair (planned inputs, columns read): group index, name, group options, context options; observed input_features and
+   observed _extract_source_features (names).  Both equal the model, and the observed pair satisfies the statement of
+   C16_calc_reads_what_was_planned *)
+Definition pair_ok (pl ca : res (list pv)) := match pl with
+  | Ok fs => match ca with Ok ns => set_eqb ns (names_of fs) | Err _ => false end | Err _ => true end.
+Definition chk_pair (c : (nat * str * list (str * pv) * list (str * pv)) * (res (list pv) * res (list pv))) :=
+  match c with ((gi, name, gr, cx), (pl, ca)) =>
+    res_set_eqb pl (plan_sources (grp_of gi) name gr cx) && res_set_eqb ca (calc_sources (grp_of gi) name gr cx)
+    && pair_ok pl ca && pair_ok (plan_sources (grp_of gi) name gr cx) (calc_sources (grp_of gi) name gr cx) end.
+(* end to end: the requested feature (as run_all got it), the group of its last link, the name of the feature that was
+   computed immediately before it (= the input the planner resolved), the column identified from the VALUE *)
+Definition chk_src_run (c : (nat * pv) * (str * str)) :=
+  match c with ((gi, PFeat (PStr name) gr cx), (planned, read)) =>
+    res_set_eqb (Ok [feat planned]) (plan_sources (nth gi uni g_aggr) name gr cx)
+    && match calc_column (nth gi uni g_aggr) name gr cx with Ok (PStr r) => str_eqb r read | _ => false end
+  | _ => false end.
 (* options notation with an unhashable spelling: the model is stuck on TypeError *)
 Definition chk_unhashable (c : pv * bool) :=
   match resolve_chain uni 8 (fst c) with WStuck _ (SErr EType) => snd c | _ => negb (snd c) end.
@@ -577,6 +598,20 @@ def obs_op(c: dict) -> Any:
     try:
         r = cls._extract_aggregation_type(f) if c["gi"] == 0 else cls._extract_imputation_method(f)
         return ["ok", from_py(r)]
+    except Exception as e:  # noqa: BLE001
+        return ["err", err_kind(e)]
+
+
+def obs_calc(c: dict) -> Any:
+    """FeatureChainParserMixin._extract_source_features on the real class: the names the calculation reads"""
+    from mloda.user import Feature
+    try:
+        f = Feature(c["name"], _real_options(c))
+    except Exception as e:  # noqa: BLE001
+        return ["skip", err_kind(e)]
+    try:
+        r = groups()[c["gi"]]._extract_source_features(f)
+        return ["ok", sorted({from_py(x) for x in r})]
     except Exception as e:  # noqa: BLE001
         return ["err", err_kind(e)]
 
@@ -1033,6 +1068,191 @@ def run_triple(c: dict) -> dict:
     return {"N": rn, "O": ro, "J": rj}
 
 
+# ------------------------------------------------------------------------------------------------------------
+# the pair (planned input features, column the calculation reads)
+# ------------------------------------------------------------------------------------------------------------
+def pair_cases(rng: random.Random, n: int) -> List[dict]:
+    """(group, name, options) with a chained name of length 1-4 (or a placeholder) of the group of the LAST link, next to
+    in_features naming the predecessor / the root / another ancestor / an unrelated column / nothing, in every spelling"""
+    out = []
+    for _ in range(n):
+        k = rng.randrange(1, 5)
+        src = rng.choice(["a", "b", "price", "x_y", "a~0"])
+        ops = []
+        for _i in range(k):
+            gi = rng.randrange(len(GROUP_SPECS))
+            ops.append([gi, rng.choice(GROUP_SPECS[gi]["vocab"])])
+        gi, op = ops[-1]
+        pred = chain_name(src, ops[:-1])
+        cands = {"pred": pred, "root": src, "anc": chain_name(src, ops[:rng.randrange(0, k)]), "other": rng.choice(["b", "zz", "a__sum_aggr"]),
+                 "two": pred + "," + src}
+        which = rng.choice(["none", "pred", "root", "root", "anc", "anc", "other", "two"])
+        name = chain_name(src, ops) if rng.random() < 0.8 else rng.choice(["ph", "out", "x_y"])
+        pairs: List[Any] = []
+        if which != "none":
+            v = cands[which]
+            sp = rng.choice(["str", "str", "list", "set", "fset", "feat", "fset_feat"]) if which != "two" else "str"
+            pairs.append(["in_features", spell(sp, v)])
+        if rng.random() < 0.5:
+            pairs.append([GROUP_SPECS[gi]["key"], op])
+        rng.shuffle(pairs)
+        in_group = rng.random() < 0.3
+        out.append({"gi": gi, "name": name, "group": pairs if in_group else [], "context": [] if in_group else pairs,
+                    "which": which, "k": k, "chained": name not in ("ph", "out", "x_y")})
+    return out
+
+
+def py_pair_ok(pl: Any, ca: Any) -> bool:
+    """the statement on the observation alone: planning succeeded -> the calculation reads exactly the planned names"""
+    if pl[0] != "ok":
+        return True
+    if ca[0] != "ok":
+        return False
+    names = sorted({(f[1] if isinstance(f, list) and f and f[0] == "Feat" else f) for f in map(_freeze_name, pl[1])})
+    return names == sorted(set(ca[1]))
+
+
+def _freeze_name(f: Any) -> Any:
+    return f[1] if isinstance(f, list) and f and f[0] == "Feat" else f
+
+
+def make_src_tracer() -> Any:
+    """Extender hook on calculate_feature: for every call the class, the names of the FeatureSet and the data's columns"""
+    from mloda.core.abstract_plugins.function_extender import Extender, ExtenderHook
+
+    class SrcTracer(Extender):
+        def __init__(self) -> None:
+            self.calls: List[Any] = []
+
+        def wraps(self) -> Any:
+            return {ExtenderHook.FEATURE_GROUP_CALCULATE_FEATURE}
+
+        def __call__(self, func: Any, *args: Any, **kwargs: Any) -> Any:
+            cls = getattr(func, "__self__", None)
+            data = args[0] if args else kwargs.get("data")
+            fs = args[1] if len(args) > 1 else kwargs.get("features")
+            try:
+                cols = list(data.columns) if hasattr(data, "columns") and not hasattr(data, "column_names") else \
+                    (list(data.column_names) if hasattr(data, "column_names") else [])
+                self.calls.append({"cls": getattr(cls, "__name__", "?"), "names": sorted(f.get_name() for f in fs.features),
+                                   "cols": sorted(str(c) for c in cols)})
+            except Exception as e:  # noqa: BLE001
+                self.calls.append({"cls": "trace-error", "names": [type(e).__name__], "cols": []})
+            return func(*args, **kwargs)
+
+    return SrcTracer()
+
+
+def run_src(feature: Any, fw: str) -> Dict[str, Any]:
+    """run_all on one feature with the SrcTracer; values of every returned column"""
+    from mloda.user import mloda
+    e = env(fw)
+    tr = make_src_tracer()
+
+    def on_alarm(signum: int, frame: Any) -> None:
+        raise RunTimeout()
+
+    old = signal.signal(signal.SIGALRM, on_alarm)
+    signal.setitimer(signal.ITIMER_REAL, RUN_TIMEOUT_S)
+    try:
+        res = mloda.run_all([feature], compute_frameworks={e["cf"]}, plugin_collector=e["pc"], function_extender={tr})
+    except RunTimeout:
+        return {"ok": False, "exc": "RunTimeout", "msg": "timeout", "calls": tr.calls}
+    except Exception as ex:  # noqa: BLE001
+        return {"ok": False, "exc": type(ex).__name__, "msg": str(ex)[:300], "calls": tr.calls}
+    finally:
+        signal.setitimer(signal.ITIMER_REAL, 0)
+        signal.signal(signal.SIGALRM, old)
+    cols: Dict[str, List[Any]] = {}
+    for t in res:
+        d = t.to_dict("list") if hasattr(t, "to_dict") else t.to_pydict()
+        for k, v in d.items():
+            cols[k] = [None if (x is None or (isinstance(x, float) and math.isnan(x))) else x for x in v]
+    return {"ok": True, "cols": cols, "calls": tr.calls}
+
+
+def src_case(rng: random.Random, k: int) -> dict:
+    """like _src_case; prefers a chain on which the predecessor column gives a value that no other candidate column gives"""
+    c = _src_case(rng, k)
+    for _ in range(12):
+        cand = src_candidates(c)
+        if all(v is not None for v in cand.values()) and \
+                not any(col != c["pred"] and same_values(v, cand[c["pred"]]) for col, v in cand.items()):
+            break
+        c = _src_case(rng, k)
+    return c
+
+
+def _src_case(rng: random.Random, k: int) -> dict:
+    """one chain of length k over {aggr, imputed} (operations of the value oracle) and all its notations of the LAST link"""
+    src = rng.choice(["a", "b"])
+    ops: List[List[Any]] = []
+    for i in range(k):
+        gi = rng.randrange(2)
+        if i == k - 1 and k > 1 and rng.random() < 0.7:
+            # a last operation that tells the candidate columns apart more often
+            gi, op = rng.choice([[0, "sum"], [0, "avg"], [0, "count"], [0, "sum"], [1, "mean"], [1, "ffill"]])
+        else:
+            op = rng.choice(AGGR_ORACLE if gi == 0 else MV_ORACLE)
+        ops.append([gi, op])
+    gi, op = ops[-1]
+    key = GROUP_SPECS[gi]["key"]
+    name, pred = chain_name(src, ops), chain_name(src, ops[:-1])
+    other = "b" if src == "a" else "a"
+    sp = rng.choice(["str", "fset", "feat", "fset_feat"])
+    place = "group" if rng.random() < 0.25 else "context"
+
+    def feat_with(nm: str, pairs: List[Any]) -> Any:
+        return ["Feat", nm, pairs if place == "group" else [], pairs if place == "context" else []]
+
+    variants: List[Any] = [["name", "feat", ["Feat", name, [], []], name, None],
+                           ["json-name", "json", [{"name": name}], name, None]]
+    targets = [["pred", pred], ["other", other]]
+    if k >= 2:
+        targets.append(["root", src])
+    if k >= 3:
+        targets.append(["anc", chain_name(src, ops[:rng.randrange(1, k - 1)])])
+    for label, x in targets:
+        variants.append(["name+in_features=" + label, "feat", feat_with(name, [["in_features", spell(sp, x)]]), name, x])
+        variants.append(["json-name+in_features=" + label, "json", [{"name": name, "in_features": [x]}], name, x])
+    variants.append(["options", "feat", feat_with("ph", [[key, op], ["in_features", spell(sp, pred)]]), "ph", pred])
+    variants.append(["json", "json", [{"name": "ph", "in_features": [pred], "context_options": {key: op}}], "ph", pred])
+    return {"kind": "sources", "fw": rng.choice(FWS), "src": src, "ops": ops, "k": k, "name": name, "pred": pred, "sp": sp,
+            "place": place, "variants": variants}
+
+
+def src_candidates(c: dict) -> Dict[str, Any]:
+    """for every column the last link could read (root columns, every prefix of the chain): the value the last operation
+    gives on it, by the exact-rational oracle"""
+    last = c["ops"][-1]
+    out: Dict[str, Any] = {}
+    for root in ("a", "b"):
+        out[root] = oracle(root, [last])
+    for j in range(1, c["k"]):
+        out[chain_name(c["src"], c["ops"][:j])] = oracle(c["src"], list(c["ops"][:j]) + [last])
+    return out
+
+
+def run_src_variant(c: dict, v: Sequence[Any]) -> Dict[str, Any]:
+    from mloda.core.api.feature_config.loader import load_features_from_config
+    label, how, payload, col, _x = v
+    try:
+        feature = to_py(payload) if how == "feat" else load_features_from_config(json.dumps(payload))[0]
+    except Exception as e:  # noqa: BLE001
+        return {"ok": False, "exc": type(e).__name__, "msg": "construct/load: " + str(e)[:200], "calls": [], "feature": None}
+    enc = from_py(feature) if not isinstance(feature, str) else ["Feat", feature, [], []]
+    r = run_src(feature, c["fw"])
+    r["feature"] = enc
+    r["values"] = r["cols"].get(col) if r["ok"] else None
+    # the input the planner resolved for the last link: the features of the calculate call right before the last one,
+    # and whether that column was in the frame handed to the last link
+    calls = r["calls"]
+    r["planned"] = calls[-2]["names"] if len(calls) >= 2 else []
+    r["last_cols"] = calls[-1]["cols"] if calls else []
+    return r
+
+
+
 def value_of(r: Dict[str, Any], col: str) -> Optional[List[Any]]:
     return r["cols"].get(col) if r["ok"] else None
 
@@ -1189,6 +1409,115 @@ def run(rep: vlib.Reporter, tier: str, seed: int) -> None:
                     f"context={c['context']} gives {o} — differs from the model", {"kind": name_, **c, "obs": o})
 
     mark("inputs_match_op")
+    # ---------------------------------------------------------------- the pair: planned inputs / columns read (unit level)
+    pcs = pair_cases(rng, 8000 if big else 900) + [dict(c, which="mixed", k=0, chained=None) for c in fc[:(3000 if big else 400)]]
+    keepp = []
+    for c in pcs:
+        pl, ca = obs_inputs(c), obs_calc(c)
+        if pl[0] == "skip" or ca[0] == "skip":
+            continue
+        keepp.append((c, pl, ca))
+    bad, info = vlib.run_cases(
+        "C16", "pair", REQ, "chk_pair",
+        [f"(({cq_nat(c['gi'])}, {cqs(c['name'])}, {cq_pairs(c['group'])}, {cq_pairs(c['context'])}), "
+         f"({cq_res(pl, cq_pvlist)}, {cq_res(ca, cq_pvlist)}))" for c, pl, ca in keepp],
+        extra_defs=EXTRA, case_type="(nat * str * list (str * pv) * list (str * pv)) * (res (list pv) * res (list pv))")
+    rep.count(len(keepp))
+    pd_: Dict[str, int] = {}
+    judge_fail = 0
+    for c, pl, ca in keepp:
+        kk = f"{'chained' if c['chained'] else ('plain' if c['chained'] is False else 'mixed')}:in_features={c['which']}:plan={pl[0]}:calc={ca[0]}"
+        pd_[kk] = pd_.get(kk, 0) + 1
+        if pl[0] == "ok" and ca[0] == "ok" and c["which"] not in ("none",):
+            rep.nontrivial(("pair", c["gi"], c["name"], json.dumps([c["group"], c["context"]])))
+        if not py_pair_ok(pl, ca):
+            judge_fail += 1
+        if not py_pair_ok(pl, ca) and judge_fail <= 3:
+            finding(f"pair-judge:{c['gi']}:{c['name']!r}:{json.dumps([c['group'], c['context']])}",
+                    f"group {GROUP_SPECS[c['gi']]['suf']}, feature {c['name']!r} with options group={c['group']} context={c['context']}: "
+                    f"input_features (planning) = {pl} but _extract_source_features (calculation) = {ca}: the calculation does not "
+                    "read what was planned", {"kind": "pair", **c, "obs": [pl, ca]})
+    rep.add("pair", {**info, "cases": len(keepp), "distribution": pd_, "disagreements": len(bad), "judge_failures": judge_fail})
+    for i in bad[:3]:
+        c, pl, ca = keepp[i]
+        finding(f"pair:{c['gi']}:{c['name']!r}:{json.dumps([c['group'], c['context']])}",
+                f"group {GROUP_SPECS[c['gi']]['suf']}, feature {c['name']!r} with options group={c['group']} context={c['context']}: "
+                f"input_features = {pl}, _extract_source_features = {ca} — differs from the model pair (plan_sources, calc_sources)",
+                {"kind": "pair", **c, "obs": [pl, ca]})
+
+    mark("pair")
+    # ---------------------------------------------------------------- the pair end to end: every notation of the last link
+    scs = [src_case(rng, k) for k in (1, 2, 3, 4) for _ in range(250 if big else 11)]
+    sst2: Dict[str, Any] = {"chains": 0, "runs": 0, "all_notations_equal": 0, "read_column_identified_by_value": 0, "by_depth": {},
+                            "by_notation": {}, "by_fw": {}}
+    src_terms, src_meta = [], []
+    src_reported = [0]
+
+    def src_finding(key: str, what: str, replay: Any) -> None:
+        nonlocal found
+        sst2["failures"] = sst2.get("failures", 0) + 1
+        src_reported[0] += 1
+        if src_reported[0] <= 6:
+            finding(key, what, replay)
+        else:
+            found = True
+
+    for c in scs:
+        sst2["chains"] += 1
+        sst2["by_depth"][str(c["k"])] = sst2["by_depth"].get(str(c["k"]), 0) + 1
+        sst2["by_fw"][c["fw"]] = sst2["by_fw"].get(c["fw"], 0) + 1
+        cand = src_candidates(c)
+        orc = oracle(c["src"], c["ops"])
+        ref: Optional[List[Any]] = None
+        equal = True
+        base = {k2: c[k2] for k2 in ("kind", "fw", "src", "ops", "k", "name", "pred", "sp", "place")}
+        for v in c["variants"]:
+            r = run_src_variant(c, v)
+            sst2["runs"] += 1
+            sst2["by_notation"][v[0]] = sst2["by_notation"].get(v[0], 0) + 1
+            rep.count(1)
+            replay = {**base, "variant": list(v), "res": {"ok": r["ok"], "exc": r.get("exc"), "msg": r.get("msg"), "values": r.get("values"),
+                                                          "planned": r.get("planned"), "calls": r.get("calls")}}
+            vals = r.get("values")
+            if v[0] == "name":
+                if vals is None or orc is None or not same_values(vals, orc):
+                    equal = False
+                    src_finding(f"src-name:{c['name']}:{c['fw']}", f"chained name {c['name']} on {c['fw']} gives {vals if vals is not None else r.get('msg')}; "
+                            f"left-to-right reference {None if orc is None else [None if x is None else float(x) for x in orc]}", replay)
+                    break
+                ref = vals
+            if vals is None or ref is None or not same_values(vals, ref):
+                equal = False
+                match = [col for col, cv in cand.items() if vals is not None and cv is not None and same_values(vals, cv)]
+                src_finding(f"src-notation:{v[0]}:{c['name']}:{c['fw']}",
+                        f"{v[0]}: {json.dumps(v[2])} on {c['fw']} gives {vals if vals is not None else (r.get('exc'), r.get('msg'))} but the "
+                        f"plain chained name {c['name']} gives {ref}; the value is the one of the last operation over column(s) {match}, "
+                        f"the planner resolved {r.get('planned')} as input of the last link (predecessor in the name: {c['pred']})", replay)
+                continue
+            # (a) the input the planner resolved, (b) the column identified from the value
+            consistent = [col for col, cv in cand.items() if cv is not None and same_values(vals, cv)]
+            planned = r["planned"]
+            if planned != [c["pred"]] or c["pred"] not in r["last_cols"]:
+                equal = False
+                src_finding(f"src-planned:{v[0]}:{c['name']}:{c['fw']}", f"{v[0]}: {json.dumps(v[2])}: the feature computed before the last link is "
+                        f"{planned}, columns handed to the last link {r['last_cols']}; the predecessor is {c['pred']}", replay)
+                continue
+            read = c["pred"] if c["pred"] in consistent else (consistent[0] if consistent else "?")
+            if consistent == [c["pred"]]:
+                sst2["read_column_identified_by_value"] += 1
+                rep.nontrivial(("src", c["name"], v[0], c["fw"], c["sp"], c["place"]))
+            src_terms.append(f"(({cq_nat(c['ops'][-1][0])}, {cq_pv(r['feature'])}), ({cqs(planned[0])}, {cqs(read)}))")
+            src_meta.append(replay)
+        sst2["all_notations_equal"] += 1 if equal else 0
+    bad, info = vlib.run_cases("C16", "src_run", REQ, "chk_src_run", src_terms, extra_defs=EXTRA, case_type="(nat * pv) * (str * str)")
+    sst2["model_disagreements"] = len(bad)
+    for i in bad[:5]:
+        m = src_meta[i]
+        finding(f"src-model:{m['variant'][0]}:{m['name']}:{m['fw']}", f"{m['variant'][0]}: {json.dumps(m['variant'][2])}: planner input {m['res']['planned']}, "
+                "column identified from the value — differs from the model (plan_sources, calc_column)", m)
+    rep.add("e2e_sources", {**info, **sst2})
+
+    mark("e2e_sources")
     # ---------------------------------------------------------------- JSON documents
     docs = list(FIXED_DOCS) + [rand_doc(rng) for _ in range(15000 if big else 1800)]
     jc = []
@@ -1545,7 +1874,7 @@ def run(rep: vlib.Reporter, tier: str, seed: int) -> None:
                     "strings over {a,_,-,newline} up to the stated length with 3 endings; in_features spellings; (group, name, options) "
                     "triples on 5 groups; JSON documents: valid forms and schema-violating mutations; end to end: PRNG chains over {aggr, "
                     "imputed} of depth <= 4 in three notations on Pandas and PyArrow, the same over sub-column sources, nested notations "
-                    "without protected keys, malformed names and schema-invalid documents through run_all. non-trivial = a parse that succeeds or raises, a non-"
+                    "without protected keys, malformed names and schema-invalid documents through run_all. pair: chained names of length 1-4 over the 5 groups next to in_features naming the predecessor / root / an ancestor / another column / nothing in 7 spellings, and the (group, name, options) stream; sources: chains of length 1-4 over {aggr, imputed} in up to 12 notations of the last link on Pandas and PyArrow. non-trivial = a parse that succeeds or raises, a non-"
                     "empty in-feature set, a match that is true, an accepted document, a triple whose three notations computed equal values")
     for smp in (cases[0], ic[3], {k: fc[0][k] for k in ("gi", "name", "group", "context")}, jc[3],
                 {k: tc[0][k] for k in ("fw", "name", "O", "J")}, bn[0]):
@@ -1599,6 +1928,12 @@ def replay(path: str) -> int:
         res = run_triple(r)
         for k, v in res.items():
             print(k, "->", {kk: vv for kk, vv in v.items() if kk != "trace"}, "trace", observed_trace(v))
+    elif kind == "pair":
+        print("now:", [obs_inputs(r), obs_calc(r)], "recorded:", r.get("obs"))
+    elif kind == "sources":
+        now = run_src_variant(r, r["variant"])
+        print("now:", {k: now.get(k) for k in ("ok", "exc", "msg", "values", "planned", "calls")})
+        print("plain name:", run_src_variant(r, ["name", "feat", ["Feat", r["name"], [], []], r["name"], None]).get("values"))
     elif kind == "unprotected":
         from mloda.user import Feature
         from mloda.core.api.feature_config.loader import load_features_from_config
